@@ -158,6 +158,24 @@ def main(run: Run):
                                                              if (1 << cfg["aw"]) < cfg["wb_dw"] // cfg["csr_dw"] else True))
     from . import ctor_l1
     ctor_l1.add_to(run, ['wb_csr_bridge_init'])
+    # L1: the statements the real elaborate() issues for one arbitrary granule of ANY ratio and granularity (recording stubs)
+    from ..pyvc.driver import discharge_all
+    from ..pyvc.engine import Unsupported
+    from ..common import BASE_ASSUMPTIONS_L1
+    try:
+        from contracts import bridge_l1
+        fv = bridge_l1.verify_bridge_elaborate()
+        run.functions["amaranth_soc.csr.wishbone.WishboneCSRBridge.elaborate [statements issued, any ratio / granularity]"] = f"proved ({fv.paths} paths, {len(fv.obs)} obligations)"
+        run.require("csr.wishbone.WishboneCSRBridge.elaborate::write-data-slice", "csr.wishbone.WishboneCSRBridge.elaborate::nothing-else-per-granule",
+                    "csr.wishbone.WishboneCSRBridge.elaborate::address-concatenation", "csr.wishbone.WishboneCSRBridge.elaborate::nothing-else-outside-the-granule-loop")
+        run.assumptions += [a for a in BASE_ASSUMPTIONS_L1 if a not in run.assumptions] + [
+            "WishboneCSRBridge.elaborate contract: Amaranth objects are recording stubs (the sequencer's statement schedule for one arbitrary granule "
+            "index of any ratio); Switch/Case/Default, If and last-assignment semantics are Amaranth's (assumed; the cycle-by-cycle consequences are "
+            "proved per ratio from the netlist by the hdlvc clauses); exact_log2 is an assumed dependency contract"]
+        discharge_all(run, fv.obs, timeout_ms=10000)
+    except Unsupported as e:
+        run.functions["amaranth_soc.csr.wishbone.WishboneCSRBridge.elaborate [statements issued]"] = f"unsupported: {e} (the per-configuration clauses decide)"
+        run.bounded_notes.append(f"WishboneCSRBridge.elaborate: outside the pyvc subset on this tree ({e}); per-configuration clauses decide")
     from . import validation
     validation.add_to(run, ['wb_csr_bridge_ctor'])
     return run.finish(
